@@ -111,30 +111,20 @@ def run(ctx, model_ok=True, proofs_broken=False):
                         ctx.violation("correspondence", {"slice": "own", "script": [l], "impl": c, "model": m_,
                                                          "note": "the ownership model and the implementation produce different allocation traces"},
                                       found_input=False)
-    # ---- 2. the sweep
+    # ---- 2. the sweep. A sanitizer abort ends the harness process; the sweep is resumed behind the failing (scenario, k) so that
+    # one defect does not hide the scenarios after it.
     scs = scenarios(ctx)
-    lines = ["E %d %d" % ((400, 7) if quick else (0, 0))]
-    for cfg, pol, items, name in scs:
-        lines.append("S %s %s %s" % (cfg, pol, ",".join(items)))
-    so, se, src = run_afail(afail, lines, timeout=7200)
-    total_runs = total_allocs = fired = 0
+    lim = (400, 7) if quick else (0, 0)
+    total_runs = total_allocs = fired = leaks_observed = 0
     per = []
-    leaks_observed = 0
-    if len(so) != len(lines):      # the process died before answering every line (a leak report at exit alone is not a crash)
-        runs = re.findall(r"^RUN (\d+) (\d+)$", se, re.M)
-        last = runs[-1] if runs else ("?", "?")
-        idx = int(last[0]) - 1 if last[0] != "?" else None
-        sc = scs[idx] if idx is not None and idx < len(scs) else None
-        rep = lib.san_reports(se)
-        sig = "sweep-crash:%s" % (rep[0][0] + "@" + rep[0][1] if rep else "rc%s" % src)
-        item = {"what": "sanitizer abort / crash with allocation #%s failed in scenario %s" % (last[1], sc[3] if sc else last[0]),
-                "k": last[1], "script": ["E 0 0", "S %s %s %s" % (sc[0], sc[1], ",".join(sc[2]))] if sc else [], "stderr": se[-2500:]}
-        if sig in known:
-            ctx.known_hits.append("%s (%s)" % (sig, known[sig]["what_fails"][:160]))
-        else:
-            ctx.violation("sweep-crash", item, found_input=bool(sc), sig=sig)
-    else:
-        for (cfg, pol, items, name), o in zip(scs, so[1:]):
+    crashes = {}
+    pos, startk, guard = 0, 1, 0
+    while pos < len(scs) and guard < 200:
+        guard += 1
+        lines = ["E %d %d %d" % (lim[0], lim[1], startk)] + ["S %s %s %s" % (c_, p_, ",".join(i_)) for c_, p_, i_, n_ in scs[pos:]]
+        so, se, src = run_afail(afail, lines, timeout=14400)
+        done = max(len(so) - 1, 0)
+        for (cfg, pol, items, name), o in zip(scs[pos:pos + done], so[1:]):
             m = re.match(r"n=(\d+) runs=(\d+) fired=(\d+) bad=\[(.*)\]$", o)
             if not m:
                 ctx.violation("sweep-unparsed", {"scenario": name, "impl": o}, found_input=False)
@@ -154,14 +144,58 @@ def run(ctx, model_ok=True, proofs_broken=False):
                     ctx.known_hits.append("%s (%s)" % (sig, known[sig]["what_fails"][:160]))
                 else:
                     ctx.violation("sweep", item, found_input=True, sig=sig)
+        if len(so) == len(lines):
+            break
+        # died inside scenario pos+done at the k of the last RUN marker
+        runs = re.findall(r"^RUN (\d+) (\d+)$", se, re.M)
+        k = int(runs[-1][1]) if runs else 0
+        sc = scs[pos + done]
+        sig = "sweep-crash:" + crash_signature(se)
+        total_runs += k
+        crashes.setdefault(sig, []).append({"what": "sanitizer abort / crash with allocation #%d failed in scenario %s" % (k, sc[3]), "k": k,
+                                            "script": ["E 0 0 %d" % k, "S %s %s %s" % (sc[0], sc[1], ",".join(sc[2]))], "stderr": asan_excerpt(se)})
+        pos, startk = pos + done, k + 1
+    for sig, items in crashes.items():
+        if sig in known:
+            ctx.known_hits.append("%s (%s) x%d" % (sig, known[sig]["what_fails"][:160], len(items)))
+        else:
+            ctx.violation("sweep-crash", dict(items[0], count=len(items)), found_input=True, sig=sig)
     ctx.cov.update({"evaluations": total_runs + len(own_lines), "distinct_nontrivial": len(set(co)), "programs": len(scs),
                     "rule": "ownership traces: 5 function groups x every k from 0 to past the last allocation, implementation vs Lean model; "
                             "sweep: every scenario x every k up to the allocation count of its fault-free run (quick: k<=400, stride 7 above 64), "
                             "ASan+UBSan+LSan, leak check after every run",
                     "ownership_lines": len(own_lines), "ownership_disagreements": ndis, "sweep_scenarios": len(scs),
                     "sweep_runs": total_runs, "allocations_in_fault_free_runs": total_allocs, "faults_fired": fired, "leaks_after_failed_allocation_observed": leaks_observed,
-                    "per_scenario": per[:40], "disagreements_checked": ndis,
+                    "per_scenario": per[:40], "sweep_crash_signatures": {k_: len(v_) for k_, v_ in crashes.items()}, "disagreements_checked": ndis,
                     "samples": [own_lines[:3], lines[1][:200], lines[-1][:200]], "exhaustive": not quick})
+
+
+def asan_excerpt(se):
+    cands = [m.start() for m in re.finditer(r"ERROR: AddressSanitizer(?!: \d+ byte)", se)] + \
+            [m.start() for m in re.finditer(r"runtime error: (?!applying zero offset)", se)]
+    i = min(cands) if cands else max(len(se) - 2500, 0)
+    return se[i:i + 3500]
+
+
+GENERIC_FRAMES = {"free", "verif_free", "bstr_free", "__interceptor_free", "htp_table_clear", "htp_table_destroy", "htp_list_array_destroy"}
+
+
+def crash_signature(se):
+    """kind of the fatal report @ the library function that made the bad access <- the one that released the block earlier: specific
+    enough that a different defect gets a different signature"""
+    ex = asan_excerpt(se)
+    m = re.search(r"ERROR: AddressSanitizer: ([a-zA-Z-]+(?: [a-zA-Z-]+)?)", ex) or re.search(r"runtime error: ([^\n]{0,60})", ex)
+    kind = (m.group(1).strip() if m else "abort").replace(" ", "-")
+    parts = re.split(r"\n(?=freed by thread|previously allocated by thread)", ex)
+
+    def who(block):
+        for fn in re.findall(r"#\d+ \S+ in (\w+) ", block):
+            if fn not in GENERIC_FRAMES:
+                return fn
+        return "?"
+    a = who(parts[0])
+    b = who(parts[1]) if len(parts) > 1 and parts[1].startswith("freed by") else None
+    return "%s@%s%s" % (kind, a, "<-" + b if b else "")
 
 
 def trace_defect(tr):
